@@ -386,6 +386,10 @@ func init() {
 			r.Try(func() { ruleOptionalOnly(w, r, "R04.5") })
 			r.Try(func() { ruleKeyLiterals(w, r, "R04.7") })
 			r.Try(func() { ruleGraphSeesAllDependencies(w, r, "R04.8") })
+			r.Rule("R04.12", 1, "an interface alias (As) is the base registration under another type: the alias descriptor takes IsInstance and Instance from the base")
+			r.Try(func() { ruleAliasIsBase(w, r, "R04.12") })
+			r.Rule("R04.13", 1, "the outputs of one constructor call are told apart by type and key (an unnamed result field is not confused with a named sibling of the same type)")
+			r.Try(func() { ruleIdentityComparisons(w, r, "R04.13") })
 			r.Rule("R04.11", 2, "the tables that hold instances are keyed by service type, key and group (what is injected for one group is not another group's member)")
 			r.Try(func() { ruleInstanceTableKeyType(w, r, "R04.11") })
 			r.Rule("R04.9", 1, "a descriptor's Constructor is reflect.ValueOf of the value registered, never a value from the shared analysis cache")
@@ -434,6 +438,10 @@ func init() {
 			r.Rule("R06.3c", 1, "sorted-order cache written only with its flag cleared")
 			r.Rule("R06.4", 4, "validation verdicts do not depend on registration order: table complete before checks; every validation step runs on every path")
 			r.Try(func() { ruleGroupLinkGraph(w, r, "R06.1") })
+			r.Rule("R06.11", 5, "what a registration yields does not depend on what was registered before it: constructors and instances are the descriptor's own, never the analysis record's")
+			r.Try(func() { ruleFunctionIdentity(w, r, "R06.11") })
+			r.Rule("R06.12", 5, "every instance a constructor yields is stored where its lifetime says (a result that is skipped is constructed again, and which copy a consumer holds depends on the order of the build)")
+			r.Try(func() { ruleTracking(w, r, "R06.12", "", "") })
 			r.Rule("R06.10", 2, "the lifetime table is keyed by the full identity of a registration: a verdict never depends on which of two registrations of one type was written last")
 			r.Try(func() { reexportC07(w, r, "R06.10", "R07.4") })
 			r.Try(func() { ruleBuildPipeline(w, r, "R06.1b", "R06.4", "R06.4", "R06.4", "") })
